@@ -60,3 +60,10 @@ claim("C17", "Coq state-machine model of Experiment histories (step / run over o
 claim("C19", "Coq model of permute_incidence_fixed_sums (validation, rejection loop fuelled by the tape, 4-cell swap) + theorems + correspondence on all small binary matrices; reachability by BFS on the implementation",
       "The model follows the code (row pair = first two picks of sample_by_index, candidate columns, two choices, swap on a private copy); compared with the implementation on every binary 2x2/2x3/3x2 (thorough 3x3, 2x4) matrix admitting a swap, k<=3, several dtypes and layouts; margins, binary shape, exact-k reachability (BFS), Hamming bound, input immutability, reproducibility asserted on the implementation.",
       CORE_NOTE, "DESIGN.md 4/C19")
+
+claim("C12", "certificate checking: Gallina checker cp_check (exact binomial tails over Q at bracket end points) with soundness/monotonicity theorems, evaluated on the implementation's actual outputs",
+      "brentq/binom.cdf are not modelled; every returned limit is certified inside Coq by an exact-arithmetic bracket of width 3e-9 around it whose end points have tails on either side of the level; monotonicity of the binomial tail in p and validity of the exact interval are theorems (Properties/C12.v); ordering, monotonicity in x, nesting in cl, start independence and solver keywords are asserted on the implementation.",
+      COMMON_NOTE + "The numerical solver's accuracy (within 1e-9 of the exact limit) is what the certificate establishes per output, not a theorem about brentq.", "DESIGN.md 4/C12")
+claim("C13", "Coq model of the integer bisection + exhaustive test-inversion spec, both compared exactly with the implementation; monotonicity/coverage theorems",
+      "hypergeom_conf_interval (integer bisection over the compatible range) is modelled exactly over Q; model, textbook exhaustive inversion and implementation agree on every (N<=9 quick, 14 thorough; n; x; level; alternative; starting point); theorems in Properties/C13.v.",
+      COMMON_NOTE + "scipy hypergeom.cdf accuracy; exact ties between a tail and the level are skipped.", "DESIGN.md 4/C13")
